@@ -82,6 +82,19 @@ pub fn tt(f: &[&str]) -> Result<String, String> {
                     None => "miss".to_string(),
                 }
             }
+            // fill: `count` upper-bound entries under consecutive keys starting at `base`
+            "f" => {
+                let base = u64::from_str_radix(p[1], 16).map_err(|_| "key")?;
+                let count: u64 = p[2].parse().map_err(|_| "count")?;
+                let age = t.generation;
+                for i in 0..count {
+                    t.insert(
+                        &ZobristHash(base.wrapping_add(i)),
+                        SearchTranspositionTableData { bound: NodeBound::Upper, eval: Eval(7), depth: 2, age, best_move: None },
+                    );
+                }
+                "fill".to_string()
+            }
             "n" => {
                 t.new_generation();
                 "gen".to_string()
